@@ -5,7 +5,8 @@ Case format (JSON):
    "ns":    [ [name, val] ... ] }                                 keyword arguments of encode, in order
   val  = {"k":"none"} | {"k":"scalar","v":item} | {"k":"dense","v":[item..],"wrap":list|tuple|lazy|hashable}
        | {"k":"sparse","v":[[key,item]..],"wrap":dict|lazy|hashable}
-  item = {"n":[num,den],"f":bool} | {"s":str}      key = {"s":str} | {"i":int}
+  item = {"n":[num,den],"f":bool} | {"s":str}      key = {"s":str} | {"i":int} | {"b":bool} | {"fl":[num,den]}
+  phase 6: "own": {"terms": edit, "at": k, "result": "scribble"|"keep"} - ownership history (see run_history)
 A namespace named by a term but missing from "ns" is absent from the call.
 """
 import itertools
@@ -31,6 +32,8 @@ FL53_TIE = True       # the driver op "fl53" (rounding model) exists
 # ------------------------------------------------------------------ building the real call
 def num(it):
     a, b = it["n"]
+    if it.get("b"):
+        return bool(a)      # phase 6: True / False as a numeric entry of the term list (bool is a Number)
     if it.get("q"):
         return Fraction(a, b)
     if it.get("f") or b != 1:
@@ -57,7 +60,25 @@ def build_item(it):
 
 
 def build_key(k):
+    """key = {"s":str} | {"i":int} | phase 6: {"b":bool} | {"fl":[num,den]} (a float key such as 1.0 or 2.5)"""
+    if "b" in k:
+        return bool(k["b"])
+    if "fl" in k:
+        return k["fl"][0] / k["fl"][1]
     return k["s"] if "s" in k else k["i"]
+
+
+def special_keys(v):
+    return v["k"] == "sparse" and any(("b" in kk or "fl" in kk) for kk, _ in v["v"])
+
+
+def collapse_pairs(v):
+    """the (key, item) pairs of the dict the caller really passes: Python's dict treats 1, True and 1.0 as ONE key (first
+    key object kept, last value kept)"""
+    d = {}
+    for kk, it in v["v"]:
+        d[build_key(kk)] = it
+    return list(d.items())
 
 
 class CMap(Mapping):
@@ -150,6 +171,10 @@ def build_val_obj(v, pool):
         return build_val(v)
     new = build_val(v)
     old = pool.get(slot)
+    spec = json.dumps({k: x for k, x in v.items() if k != "obj"}, sort_keys=True)
+    if old is not None and type(old) is type(new) and pool.get(("spec", slot)) == spec:
+        return old      # phase 6: the caller re-passes the SAME object without touching it (whatever the library did to it stays)
+    pool[("spec", slot)] = spec
     if old is not None and type(old) is type(new):
         if isinstance(old, list):
             old[:] = new
@@ -198,23 +223,69 @@ def single(case, i):
     return {"terms": case["terms"], "ns": [[n, {k: x for k, x in v.items() if k != "obj"}] for n, v in calls_of(case)[i]]}
 
 
-def run_history(case):
+OWN_TERM_EDITS = ["append", "clear", "reverse", "pop", "number", "extend-self"]
+SCRIBBLE = 99991
+
+
+def own_edit_terms(terms, how):
+    """the caller changes, in place, the list object it passed to the constructor"""
+    if how == "append":
+        terms.append("xxa")
+    elif how == "clear":
+        terms.clear()
+    elif how == "reverse":
+        terms.reverse()
+    elif how == "pop":
+        if terms:
+            terms.pop(0)
+    elif how == "number":
+        terms.insert(0, 5)
+    elif how == "extend-self":
+        terms.extend([t + "x" for t in terms if isinstance(t, str)])
+    return terms
+
+
+def own_snap(v):
+    """the content of an argument as its owner sees it (types included)"""
+    try:
+        if isinstance(v, Mapping):
+            return ("m", [(type(k).__name__, repr(k), type(v[k]).__name__, repr(v[k])) for k in v])
+        if v is None or isinstance(v, (str, int, float, Fraction)):
+            return ("s", type(v).__name__, repr(v))
+        return ("d", type(v).__name__, [(type(x).__name__, repr(x)) for x in v])
+    except Exception as e:      # pragma: no cover
+        return ("?", repr(e))
+
+
+def run_history(case, notes=None):
     """the real code: ONE encoder object, the calls of the history in order (argument objects re-used where the
-    case says so); a call that raises does not end the history"""
+    case says so); a call that raises does not end the history.
+    phase 6, case["own"] = {"terms": edit, "at": k, "result": "scribble"|"keep"}: the CALLER edits in place the term list it
+    passed to the constructor (before call k), overwrites every result it is handed ("scribble") or keeps the results and
+    looks at them again after the later calls ("keep"); the arguments are compared before/after every call. What the
+    library did to caller-owned objects is reported through `notes` as (call index, sig, what)."""
     from coba.encodings import InteractionsEncoder
     calls = calls_of(case)
+    own = case.get("own") or {}
+    notes = notes if notes is not None else []
+    terms = build_terms(case)
+    tsnap = own_snap(terms)
     try:
-        enc = InteractionsEncoder(build_terms(case))
+        enc = InteractionsEncoder(terms)
     except Exception as e:
         return [{"err": type(e).__name__, "msg": str(e)[:200]} for _ in calls]
+    if own and own_snap(terms) != tsnap:
+        notes.append((0, "own:constructor-changed-the-callers-term-list", "InteractionsEncoder(terms) changed the list it was given: %r -> %r" % (build_terms(case), terms)))
     import copy
     import pickle
     copiers = {"pickle": lambda e: pickle.loads(pickle.dumps(e)), "deepcopy": copy.deepcopy, "copy": copy.copy}
     copies = list(case.get("copies") or [])
-    pool, outs = {}, []
+    pool, outs, held = {}, [], []
     with capped_memory():
         for i, ns in enumerate(calls):
             try:
+                if own.get("terms") and own.get("at", 0) == i:
+                    own_edit_terms(terms, own["terms"])
                 use = enc
                 cp = copies[i] if i < len(copies) else None
                 if cp:      # this call goes to a COPY of the encoder; "keep": later calls too
@@ -222,7 +293,25 @@ def run_history(case):
                     if cp.get("keep"):
                         enc = use
                 kw = {n: build_val_obj(v, pool) for n, v in ns}
-                outs.append(canon_out(use.encode(**kw)))
+                before = {n: own_snap(o) for n, o in kw.items()} if own else None
+                r = use.encode(**kw)
+                outs.append(canon_out(r))
+                if own:
+                    for n, o in kw.items():
+                        if own_snap(o) != before[n]:
+                            notes.append((i, "own:encode-changed-its-argument:" + before[n][0], "encode(%s=...) changed the caller's object: %r -> %r" % (n, before[n], own_snap(o))))
+                    for j, (obj, can) in enumerate(held):
+                        if canon_out(obj) != can:
+                            notes.append((i, "own:earlier-result-changed-by-a-later-call", "the result handed out by call #%d was changed by call #%d: now %r" % (j + 1, i + 1, obj)))
+                            held[j] = (obj, canon_out(obj))
+                    if own.get("result") == "keep":
+                        held.append((r, outs[-1]))
+                    elif own.get("result") == "scribble":      # the caller overwrites what it was handed
+                        if isinstance(r, list):
+                            r[:] = [SCRIBBLE]
+                        elif isinstance(r, dict):
+                            r.clear()
+                            r["x0"] = SCRIBBLE
             except Exception as e:
                 outs.append({"err": type(e).__name__, "msg": str(e)[:200]})
     return outs
@@ -360,7 +449,7 @@ def feats_sparse(ns, v):
     elif v["k"] == "dense":
         pairs = [(str(i), it) for i, it in enumerate(v["v"])]
     else:
-        pairs = [(build_key(k), it) for k, it in v["v"]]
+        pairs = collapse_pairs(v) if special_keys(v) else [(build_key(k), it) for k, it in v["v"]]
     stage1 = OrderedDict()          # handle_str: keys are Python objects (1 and '1' stay distinct here)
     for k, it in pairs:
         if "s" in it:
@@ -907,6 +996,73 @@ def canon_terms(ts):
     return sorted(("t", t) if isinstance(t, str) else ("n", str(Fraction(t))) for t in ts)
 
 
+def extract_ownership(repo=None):
+    """phase 6 translator: read off coba/encodings.py (AST) what InteractionsEncoder does with caller-owned objects.
+    copies: every use of the constructor's term-list parameter is as the iterable of a comprehension or as the argument of
+    list / tuple / sorted / set / sum / filter / map / zip / join-like calls (it is never stored, never handed on as an object);
+    fresh: every `return` of `encode` returns a local name, each assignment to that name builds a new object (a call, a
+    literal, a comprehension or `[..] + name`), and no attribute of `self` is assigned from it or returned."""
+    import ast
+    repo = repo or os.environ.get("COBA_REPO", "/repo")
+    tree = ast.parse(open(os.path.join(repo, "coba/encodings.py"), encoding="utf-8").read())
+    cls = next(n for n in ast.walk(tree) if isinstance(n, ast.ClassDef) and n.name == "InteractionsEncoder")
+    fns = {f.name: f for f in cls.body if isinstance(f, ast.FunctionDef)}
+    init, enc = fns["__init__"], fns["encode"]
+    param = init.args.args[1].arg
+    parents = {}
+    for n in ast.walk(init):
+        for c in ast.iter_child_nodes(n):
+            parents[id(c)] = n
+    copies, uses = True, 0
+    for n in ast.walk(init):
+        if isinstance(n, ast.Name) and n.id == param:
+            uses += 1
+            par = parents.get(id(n))
+            ok = (isinstance(par, ast.comprehension) and par.iter is n) or (
+                isinstance(par, ast.Call) and n in par.args and isinstance(par.func, ast.Name) and par.func.id in ("list", "tuple", "sorted", "set", "sum", "filter", "map", "zip", "len", "frozenset"))
+            if isinstance(n.ctx, ast.Store):      # re-binding the name: fine when the new value is itself a copy (`p = list(p)`)
+                v = par.value if isinstance(par, ast.Assign) else None
+                ok = isinstance(v, (ast.ListComp, ast.List, ast.Tuple)) or (
+                    isinstance(v, ast.Call) and isinstance(v.func, ast.Name) and v.func.id in ("list", "tuple", "sorted"))
+            if not ok:
+                copies = False
+    if uses == 0:
+        raise ValueError("the term-list parameter %r is not used in __init__" % param)
+    for f in cls.body:      # nothing else may look at a kept reference either
+        if isinstance(f, ast.FunctionDef) and f is not init:
+            for n in ast.walk(f):
+                if isinstance(n, ast.Attribute) and isinstance(n.value, ast.Name) and n.value.id == "self" and n.attr.lstrip("_") in (param, "terms"):
+                    copies = False
+    def own_nodes(fn):      # the statements of `fn` itself, not those of functions / lambdas defined inside it
+        stack = list(ast.iter_child_nodes(fn))
+        while stack:
+            n = stack.pop()
+            yield n
+            if not isinstance(n, (ast.FunctionDef, ast.Lambda, ast.AsyncFunctionDef)):
+                stack.extend(ast.iter_child_nodes(n))
+    rets = [n for n in own_nodes(enc) if isinstance(n, ast.Return)]
+    fresh = bool(rets)
+    names = set()
+    for r in rets:
+        if isinstance(r.value, ast.Name):
+            names.add(r.value.id)
+        else:
+            fresh = False
+    for n in own_nodes(enc):
+        if isinstance(n, ast.Assign):
+            for t in n.targets:
+                if isinstance(t, ast.Name) and t.id in names:
+                    v = n.value
+                    if not (isinstance(v, (ast.Call, ast.List, ast.Dict, ast.ListComp, ast.DictComp)) or
+                            (isinstance(v, ast.BinOp) and isinstance(v.op, ast.Add) and isinstance(v.left, (ast.List, ast.ListComp)))):
+                        fresh = False
+                    if isinstance(v, ast.Call) and not (isinstance(v.func, ast.Name) and v.func.id in ("dict", "sum", "list", "OrderedDict")):
+                        fresh = False
+                if isinstance(t, (ast.Attribute, ast.Subscript)) and any(isinstance(m, ast.Name) and m.id in names for m in ast.walk(n.value)):
+                    fresh = False      # the result is stored somewhere
+    return {"copies": copies, "fresh": fresh}
+
+
 # ------------------------------------------------------------------ sending a case to the Lean driver
 def to_driver(case):
     def item(it):
@@ -920,6 +1076,8 @@ def to_driver(case):
             return {"scalar": item(v["v"])}
         if k == "dense":
             return {"dense": [item(i) for i in v["v"]]}
+        if special_keys(v):     # bool / float keys: the dict the caller passes, keys formatted by Python itself ("True", "1.0")
+            return {"sparse": [[{"i": k} if type(k) is int else {"s": "%s" % (k,)}, item(i)] for k, i in collapse_pairs(v)]}
         return {"sparse": [[kk, item(i)] for kk, i in v["v"]]}
     return {"terms": [{"t": t} if isinstance(t, str) else {"n": t["n"]} for t in case["terms"]],
             "ns": [[n, val(v)] for n, v in case["ns"]]}
@@ -970,7 +1128,14 @@ class C20(Property):
             "of the arguments that occur) and compared with the model's pmf and the real learner's; every sparse call evaluates the whole-call equal-length "
             "condition (equalLenOK) in Lean and on the monitor's own names and checks its consequence (all monomials kept); round h: a deterministic size "
             "family in the corpus - dense namespaces of 1, 2, 63, 64, 65, 100, 257 distinct values on the mapping path (next to a string scalar, next to a "
-            "sparse namespace, a string inside the vector) and on the vector path, degree 1, the cross `xa` and degree 2 (mapping path up to 65, vector path up to 100)")
+            "sparse namespace, a string inside the vector) and on the vector path, degree 1, the cross `xa` and degree 2 (mapping path up to 65, vector path up to 100); "
+            "phase 6: ownership histories (case field `own`; a deterministic corpus family of 95 four-call histories + 10% of the generated cases): the caller edits in "
+            "place the term list it passed to the constructor (append / clear / reverse / pop / insert a number / extend, before call 1, 2 or 3), overwrites or keeps every "
+            "result it is handed, and passes the same argument objects again untouched; every call must still return the expansion of the terms the encoder was "
+            "constructed with (B, prefix own:), arguments and earlier results must be left as they were (B own:encode-changed-its-argument, "
+            "own:earlier-result-changed-by-a-later-call, own:constructor-changed-the-callers-term-list), and the returned values are compared with the model's ownRun "
+            "(driver op own, A:own-history); key kinds (deterministic family of 64 cases + 8% of generated sparse keys): sparse keys that are bools / floats (1 / True / 1.0, 0 / False / 0.0 in "
+            "every order on one encoder, mixed in one dict, with string values), True / 1.0 among the numeric entries of the term list")
     trusted_base = [
         "products are compared exactly (ints, or dyadic floats small enough that every float product is exact); cases with arbitrary doubles "
         "are compared at the relative tolerance (1+2^-53)^(d-1)-1 of theorem encode_float_model (standard model: no under/overflow, "
@@ -997,6 +1162,11 @@ class C20(Property):
         "extract_pmf_prog) into Generated/C20LinAlg.lean; np.sqrt / .round(5) are parameters of the model (a table of CPython's values on the arguments "
         "that occur is sent to the driver); LinTS with v != 0 draws from numpy's Generator (PCG64 stream, ziggurat normals, Cholesky factor), which "
         "cannot be reproduced without numpy - a stand-in would fix other draws, so that branch is not run and not modelled",
+        "phase 6: Python's own dict-key identification (1 == True == 1.0: one entry, first key object, last value) and its formatting of bool / float keys "
+        "('True', '1.0', '2.5') are taken from CPython: the harness collapses the pairs with a real dict and sends such keys to the model as the formatted string",
+        "phase 6: what InteractionsEncoder does with caller-owned objects (constructor copies its term list; encode returns a newly built object it does not keep) "
+        "is read off coba/encodings.py by a small AST reader (extract_ownership) into Generated/C20Callers.lean (obligation own_source); argument objects are "
+        "compared before/after every call of an ownership history by content and type (own_snap)",
         "the callers are run with a recording subclass substituted for the module-level name InteractionsEncoder and, where numpy is "
         "not installed, a stub numpy module (only the encoder calls made before the first numpy use are observed)",
     ]
@@ -1089,6 +1259,15 @@ class C20(Property):
                      "def envNorms : List Norm := [.asIs]\ndef syntheticNorms : List Norm := [.wrapStr]\ndef linucbNorms : List Norm := [.asIs]\n"
                      "def lintsNorms : List Norm := [.asIs]\ndef shapesExtracted : Bool := false\n" % str(e).replace("\n", " ")[:150])
             notes.append("argument treatments could NOT be extracted (%s); synthetic_entry_shapes / learner_entry_shapes are about the last known ones; the caller cases still spy the real encoder" % e)
+        try:
+            ow = extract_ownership(repo)
+            norms += ("def initCopiesTerms : Bool := %s\ndef encodeReturnsFresh : Bool := %s\ndef ownershipExtracted : Bool := true\n"
+                      % ("true" if ow["copies"] else "false", "true" if ow["fresh"] else "false"))
+            notes.append("ownership read off InteractionsEncoder: the constructor copies its term list: %r, encode returns a newly built object: %r" % (ow["copies"], ow["fresh"]))
+        except Exception as e:
+            norms += ("-- what InteractionsEncoder does with caller-owned objects could not be read off the source (%s); last known:\n"
+                      "def initCopiesTerms : Bool := true\ndef encodeReturnsFresh : Bool := true\ndef ownershipExtracted : Bool := false\n" % str(e).replace("\n", " ")[:150])
+            notes.append("ownership could NOT be read off InteractionsEncoder (%s); own_source is about the last known behaviour; the ownership histories still run on the real code" % e)
         body = body.replace("@@NORMS@@", norms)
         path = os.path.join(lean.LEAN_DIR, "CobaVerif", "Generated", "C20Callers.lean")
         old = open(path, encoding="utf-8").read() if os.path.exists(path) else None
@@ -1164,6 +1343,8 @@ class C20(Property):
                 keys.append({"i": i + rng.choice([0, 0, 1, 10])})
             elif style == 2:
                 keys.append(rng.choice([{"s": rng.choice(names)}, {"i": rng.randint(0, 12)}]))
+                if rng.chance(0.08):
+                    keys[-1] = rng.choice([{"b": True}, {"b": False}, {"fl": [1, 1]}, {"fl": [0, 1]}, {"fl": [5, 2]}, {"fl": [rng.randint(0, 12), 1]}])
             elif style == 3:
                 keys.append({"s": "%s%d" % (rng.choice(["c", "", "1"]), i)})
             else:
@@ -1262,6 +1443,8 @@ class C20(Property):
             self.add_history(rng, case, tier)
         if rng.chance(0.3):
             self.add_copies(rng, case)
+        if rng.chance(0.1):
+            self.add_own(rng, case)
         return case
 
     def add_copies(self, rng, case):
@@ -1561,11 +1744,87 @@ class C20(Property):
         cs += [{"terms": ["x", "xa", "xxa"], "ns": [["x", SP(("p", 2), ("q", 3))], ["a", SP(("k", 5))]]},
                {"terms": ["xxa", "xax"], "ns": [["x", SP(("p", 2))], ["a", SP(("k", 5))]]}]
         cs += self.size_family()
+        # phase 6: the witness of theorem own_keep_terms_counterexample (the caller extends its term list after construction), then the family
+        cs.append({"terms": ["x"], "ns": [["x", {"k": "dense", "v": [{"n": [2, 1]}], "wrap": "list"}]], "own": {"terms": "extend-self", "at": 0}})
+        cs += self.own_family()
+        cs += self.key_family()
         from props import c20_learner
         cs += c20_learner.corpus()
         return cs
 
     SIZES = (1, 2, 63, 64, 65, 100, 257)
+
+    def key_family(self):
+        """phase 6 (deterministic, every tier): key kinds. Histories on ONE encoder whose sparse namespaces are keyed by ints, then by
+        the bools / floats that Python's dict (and any cache keyed by the key object) identifies with them - 1 / True / 1.0, 0 / False /
+        0.0 - in every order, with positional keys of a dense vector on the mapping path in between; mixed dicts ({1:…, True:…} is ONE
+        entry); string-valued entries under bool / float keys; True / 1.0 among the numeric entries of the term list"""
+        def Sp(kv):
+            return {"k": "sparse", "wrap": "dict", "v": [[{"b": k} if isinstance(k, bool) else {"i": k} if isinstance(k, int) else {"fl": [int(k * 2), 2]} if isinstance(k, float) else {"s": k},
+                                                          {"s": x} if isinstance(x, str) else {"n": [x, 1]}] for k, x in kv]}
+        ints, bools, floats = Sp([(1, 2), (0, 3)]), Sp([(True, 5), (False, 7)]), Sp([(1.0, 11), (2.5, 13), (0.0, 17)])
+        dense = {"k": "dense", "wrap": "list", "v": [{"n": [19, 1]}, {"n": [23, 1]}]}
+        strs = Sp([(True, "red"), (1.5, "b"), ("k", 29)])
+        mixed = Sp([(1, 2), (True, 3), (1.0, 5), ("1", 7), (0, 11), (False, 13)])
+        a = {"k": "scalar", "v": {"s": "b"}}
+        out = []
+        for tl in (["x", "xa"], ["xx"], [{"n": [1, 1], "b": True}, "x"], [{"n": [1, 1], "f": True}, {"n": [1, 1]}, {"n": [1, 1], "b": True}, "ax"]):
+            for order in itertools.permutations([ints, bools, floats]):
+                cs = [[["x", json.loads(json.dumps(v))], ["a", a]] for v in order]
+                out.append({"terms": json.loads(json.dumps(tl)), "ns": cs[0], "hist": cs[1:]})
+            for first in (dense, ints):
+                cs = [[["x", json.loads(json.dumps(v))], ["a", a]] for v in (first, bools, strs, mixed, first)]
+                out.append({"terms": json.loads(json.dumps(tl)), "ns": cs[0], "hist": cs[1:]})
+            for v in (bools, floats, strs, mixed):
+                out.append({"terms": json.loads(json.dumps(tl)), "ns": [["x", json.loads(json.dumps(v))]]})
+                out.append({"terms": json.loads(json.dumps(tl)), "ns": [["x", dict(json.loads(json.dumps(v)), wrap="custom")], ["a", json.loads(json.dumps(bools))]]})
+        return out
+
+    def own_family(self):
+        """phase 6 (deterministic, every tier): ownership histories. One encoder, four calls A, A, B, B — the second of each pair
+        passes the SAME argument objects again, untouched by the caller — for every in-place edit of the caller's term list
+        (none / append / clear / reverse / pop / insert a number / extend) before call 1, 2 or 3, the caller overwriting
+        ("scribble") or keeping ("keep") every result it is handed; A/B = dense, sparse, dense-with-a-string, sparse-with-a-string-value in rotation"""
+        def D(xs, slot):
+            return {"k": "dense", "v": [{"n": [x, 1]} if not isinstance(x, str) else {"s": x} for x in xs], "wrap": "list", "obj": slot}
+
+        def Sp(kv, slot):
+            return {"k": "sparse", "v": [[{"s": k}, {"n": [x, 1]} if not isinstance(x, str) else {"s": x}] for k, x in kv], "wrap": "dict", "obj": slot}
+        flavours = [[["x", D([2, 3], 0)], ["a", D([5, 7], 1)]],
+                    [["x", Sp([("p", 2), ("q", 3)], 2)], ["a", D([5, 7], 1)]],
+                    [["x", D([2, "b", 3], 3)], ["a", Sp([("k", 11)], 4)]],
+                    [["x", Sp([("p", 2), ("c", "red"), ("q", 3)], 5)], ["a", D([5, 7], 1)]]]
+        tls = [["x"], [{"n": [1, 1]}, "x", "xa"], ["xxa", "a"], [{"n": [2, 1]}, {"n": [3, 1]}], ["a", "x", "xa", "xx"]]
+        out, i = [], 0
+        for edit in [None] + OWN_TERM_EDITS:
+            for at in ([0, 1, 2] if edit else [0]):
+                for tl in tls:
+                    a, b = flavours[i % 4], flavours[(i + 1 + (i // 4) % 3) % 4]
+                    cs = json.loads(json.dumps([a, a, b, b]))
+                    own = {"result": "scribble" if i % 2 == 0 else "keep"}
+                    if edit:
+                        own.update(terms=edit, at=at)
+                    out.append({"terms": json.loads(json.dumps(tl)), "ns": cs[0], "hist": cs[1:], "own": own})
+                    i += 1
+        return out
+
+    def add_own(self, rng, case):
+        """phase 6: the caller edits what it shares with the encoder (see run_history); plain argument objects are re-passed"""
+        calls = calls_of(case)
+        if len(calls) == 1 or rng.chance(0.4):      # pass the same objects again, untouched
+            k = 0
+            for _, v in calls[-1]:
+                if "obj" not in v and ((v["k"] == "dense" and v.get("wrap", "list") == "list") or (v["k"] == "sparse" and v.get("wrap", "dict") == "dict")):
+                    v["obj"] = 50 + k
+                    k += 1
+            case.setdefault("hist", []).append(json.loads(json.dumps(calls[-1])))
+        own = {}
+        if rng.chance(0.7):
+            own["terms"] = rng.choice(OWN_TERM_EDITS)
+            own["at"] = rng.below(len(calls_of(case)))
+        if not own or rng.chance(0.7):
+            own["result"] = rng.choice(["scribble", "keep"])
+        case["own"] = own
 
     def size_family(self):
         """round h: DETERMINISTIC sizes of a dense namespace - 1, 2, 63, 64, 65, 100, 257 elements - on the sparse/string path
@@ -1607,10 +1866,14 @@ class C20(Property):
             return self.evaluate_floatmul(case, driver)
         calls = calls_of(case)
         copies = [c for c in (case.get("copies") or [])][:len(calls)]
-        if len(calls) == 1 and not any(copies):
+        copies += [None] * (len(calls) - len(copies)) if any(copies) else []
+        own = case.get("own") or {}
+        if len(calls) == 1 and not any(copies) and not own:
             return self.evaluate_call(single(case, 0), run_impl(single(case, 0)), driver)
-        impls = run_history(case)
+        notes = []
+        impls = run_history(case, notes)
         plain = None      # the same history without copying the encoder (computed when a call on a copy fails)
+        plain_own = None  # the same history without the caller's edits of shared objects
         out = {"fails": [], "tags": ["hist:%d" % len(calls)], "nontrivial": False, "impl": [], "model": []}
         for cp in copies:
             if cp:
@@ -1618,6 +1881,35 @@ class C20(Property):
         slots = [v.get("obj") for ns in calls for _, v in ns if v.get("obj") is not None]
         if len(set(slots)) < len(slots):
             out["tags"].append("hist:same-object-changed-in-place")
+        if own:
+            # phase 6: ownership history. (B) the library must leave caller-owned objects alone ...
+            out["tags"] += ["own:terms-" + str(own.get("terms")) + ("@%d" % own.get("at", 0) if own.get("terms") else ""), "own:result-" + str(own.get("result"))]
+            specs = [json.dumps([[n, {k: x for k, x in v.items() if k != "obj"}] for n, v in ns], sort_keys=True) for ns in calls]
+            if any(specs[i] == specs[j] and set(v.get("obj") for _, v in calls[i] if "obj" in v) & set(v.get("obj") for _, v in calls[j] if "obj" in v)
+                   for i in range(len(calls)) for j in range(i)):
+                out["tags"].append("own:same-objects-passed-again-untouched")
+            for i, sig, what in notes:
+                out["fails"].append(F("B", "%s; history: %s" % (what, self.snippet(case).replace("\n", " | ")[:700]), sig))
+            # ... (A) and the values returned are those of the model's ownership history `ownRun` (theorem own_history_eq_spec)
+            if driver is not None:
+                ops = []
+                for i, ns in enumerate(calls):
+                    if own.get("terms") and own.get("at", 0) == i:
+                        edited = own_edit_terms(list(case["terms"]), own["terms"])
+                        ops.append({"editTerms": [{"t": t} if isinstance(t, str) else {"n": [5, 1]} if t == 5 else {"n": t["n"]} for t in edited]})
+                    ops.append({"encode": to_driver({"terms": [], "ns": [[n, {k: x for k, x in v.items() if k != "obj"}] for n, v in ns]})["ns"]})
+                    if own.get("result") == "scribble":
+                        ops.append({"editResult": i})
+                ans = driver.ask({"op": "own", "terms": to_driver({"terms": case["terms"], "ns": []})["terms"], "ops": ops})
+                if len(ans["returned"]) != len(calls) or ans["held"] != len(calls) or ans["encTerms"] != to_driver({"terms": case["terms"], "ns": []})["terms"]:
+                    out["fails"].append(F("C", "ownRun returned %d values for %d calls / changed the encoder's terms" % (len(ans["returned"]), len(calls)), "C:own-run"))
+                else:
+                    for i, m in enumerate(ans["returned"]):
+                        one = single(case, i)
+                        if not self.same(impls[i], from_model(m), case_tol(one)):
+                            out["fails"].append(F("A", "call #%d of an ownership history (%r): the real encoder returned %s, the model's ownRun %s"
+                                                  % (i + 1, own, fmt_out(impls[i]), fmt_out(from_model(m))), "A:own-history"))
+                    out["tags"].append("own:model-history-agrees" if not any(f["sig"] == "A:own-history" for f in out["fails"]) else "own:model-history-differs")
         kinds = set()
         for i in range(len(calls)):
             one = single(case, i)
@@ -1635,6 +1927,17 @@ class C20(Property):
                         f["what"] = ("a COPY of the encoder (%s) behaves differently from the encoder it was copied from. "
                                      % "/".join(sorted(set(c["op"] for c in copies[:i + 1] if c)))) + f["what"]
                         f["what"] = "call #%d of %d on one encoder: %s" % (i + 1, len(calls), f["what"])
+                        out["fails"].append(f)
+                        continue
+                if f["kind"] in ("A", "B") and own:
+                    # phase 6: is the same history right when the caller leaves the shared objects alone?
+                    if plain_own is None:
+                        plain_own = run_history({k: v for k, v in case.items() if k != "own"})
+                    alone = self.evaluate_call(one, plain_own[i], driver)
+                    if not any(g["kind"] == f["kind"] for g in alone["fails"]):
+                        f["sig"] = "own:" + f["sig"]
+                        f["what"] = ("encode() depends on what the CALLER did to objects it owns (%r: the term list it passed to the constructor / results it "
+                                     "was handed); the same history without those edits is right. call #%d of %d: %s" % (own, i + 1, len(calls), f["what"]))
                         out["fails"].append(f)
                         continue
                 if f["kind"] in ("A", "B") and i > 0:
@@ -1854,6 +2157,8 @@ class C20(Property):
             tags.append("terms:duplicate-string")
         ncon = len(case["terms"]) - nstr
         tags.append("consts:%d" % min(ncon, 3))
+        if any((not isinstance(t, str)) and t.get("b") for t in case["terms"]):
+            tags.append("const:bool")
         if o.const == 0 and ncon:
             tags.append("const:sum-zero")
         if o.absent:
@@ -1862,6 +2167,10 @@ class C20(Property):
             tags.append("val:" + v["k"] + (":str" if val_is_sparse(v) and v["k"] != "sparse" else "") + ((":" + v["wrap"]) if v.get("wrap") not in (None, "list", "dict") else ""))
             if v["k"] in ("dense", "sparse") and not v["v"]:
                 tags.append("val:empty")
+            if special_keys(v):
+                tags += sorted(set("key:bool" if "b" in kk else "key:float" for kk, _ in v["v"] if "b" in kk or "fl" in kk))
+                if len(collapse_pairs(v)) < len(v["v"]):
+                    tags.append("key:equal-as-dict-keys(1/True/1.0)")
         maxd = 0
         for t in dedupe(o.terms):
             if len(factors(t)) >= 2:
@@ -2037,7 +2346,17 @@ class C20(Property):
             copies = cps if copies is None else copies
             if any(copies[:len(cs)]):
                 c["copies"] = copies[:len(cs)]
+            if case.get("own"):
+                c["own"] = dict(case["own"])
             return c
+        if case.get("own"):
+            base = mk(case["terms"], calls)
+            for drop in (["terms", "at"], ["result"]):
+                o2 = {k: v for k, v in case["own"].items() if k not in drop}
+                if o2 != case["own"] and (o2.get("terms") or o2.get("result")):
+                    yield dict(base, own=o2)
+            if case["own"].get("at"):
+                yield dict(base, own=dict(case["own"], at=0))
         if any(cps):
             yield mk(case["terms"], calls, [None] * len(calls))
             for i, cp in enumerate(cps):
@@ -2169,9 +2488,18 @@ class C20(Property):
         cps = list(case.get("copies") or [])
         if any(cps):
             lines.append("import copy, pickle")
-        lines.append("enc = InteractionsEncoder(%r)" % (build_terms(case),))
+        own = case.get("own") or {}
+        if own:
+            lines.append("terms = %r" % (build_terms(case),))
+            lines.append("enc = InteractionsEncoder(terms)   # every call below must return the expansion of THESE terms")
+        else:
+            lines.append("enc = InteractionsEncoder(%r)" % (build_terms(case),))
         seen = {}
+        EDIT = {"append": "terms.append('xxa')", "clear": "terms.clear()", "reverse": "terms.reverse()", "pop": "terms and terms.pop(0)",
+                "number": "terms.insert(0, 5)", "extend-self": "terms.extend([t + 'x' for t in terms if isinstance(t, str)])"}
         for i, ns in enumerate(calls):
+            if own.get("terms") and own.get("at", 0) == i:
+                lines.append("%s   # the caller changes ITS list" % EDIT[own["terms"]])
             cp = cps[i] if i < len(cps) else None
             target = "enc"
             if cp:
@@ -2189,15 +2517,32 @@ class C20(Property):
                     args.append("%s=%s" % (n, sv(v)))
                     continue
                 name = "obj%d" % slot
-                if seen.get(slot) == v["k"]:
+                spec = json.dumps({k: x for k, x in v.items() if k != "obj"}, sort_keys=True)
+                if seen.get(slot) == v["k"] and seen.get(("spec", slot)) == spec:
+                    pass      # the same object, untouched by the caller
+                elif seen.get(slot) == v["k"]:
+                    seen[("spec", slot)] = spec
                     lines.append("%s[:] = %s  # the same list object, changed in place" % (name, sv(v)) if v["k"] == "dense"
                                  else "%s.clear(); %s.update(%s)  # the same dict object, changed in place" % (name, name, sv(v)))
                 else:
                     lines.append("%s = %s" % (name, sv(v)))
                     seen[slot] = v["k"]
+                    seen[("spec", slot)] = spec
                 args.append("%s=%s" % (n, name))
-            lines.append("try: print(%s.encode(%s))" % (target, ", ".join(args)))
-            lines.append("except Exception as e: print('raised', repr(e))")
+            if own.get("result"):
+                lines.append("try: r%d = %s.encode(%s); print(r%d)" % (i, target, ", ".join(args), i))
+                lines.append("except Exception as e: r%d = None; print('raised', repr(e))" % i)
+                named = [a.split("=", 1)[1] for a in args if a.split("=", 1)[1].startswith("obj")]
+                if named:
+                    lines.append("print('the caller\\'s argument objects after the call:', %s)" % ", ".join(named))
+                if own["result"] == "scribble":
+                    lines.append("if isinstance(r%d, list): r%d[:] = [%d]   # the caller overwrites the result it was handed" % (i, i, SCRIBBLE))
+                    lines.append("if isinstance(r%d, dict): r%d.clear(); r%d['x0'] = %d" % (i, i, i, SCRIBBLE))
+                else:
+                    lines.append("# the caller keeps r%d; later calls must not change it" % i)
+            else:
+                lines.append("try: print(%s.encode(%s))" % (target, ", ".join(args)))
+                lines.append("except Exception as e: print('raised', repr(e))")
             try:
                 o = Oracle(single(case, i))
                 d = dedupe(o.terms)
